@@ -46,6 +46,7 @@ var scenarios = map[string]scenario{
 	"flow-renew2-migrate": {run: flowRenew2Migrate},
 	"flow-debt-release":   {run: flowDebtRelease},
 	"flow-short-renewal":  {run: flowShortRenewal},
+	"flow-did-self-join":  {run: flowDidSelfJoin},
 	"flow-unnamed-rollback": {run: flowUnnamedRollback},
 	"flow-renew-many-poor": {run: flowRenewManyPoor},
 	"flow-capacity-edge":  {run: flowCapacityEdge},
@@ -1293,4 +1294,39 @@ func flowSlashedValidator(r *Recorder, accts []*Account) {
 	r.BeginBlock()
 	r.Undelegate(third, val, 1000)
 	r.EndBlockStaking()
+}
+
+// A stranger tries to join somebody else's sid DID by binding his OWN account to it, with a perfectly valid proof signed
+// by himself, submitting the request himself: refused, because once the DID exists a binding must be submitted by an
+// account already bound to it. The owner then adds that same account properly, and the new member adds a third.
+func flowDidSelfJoin(r *Recorder, accts []*Account) {
+	owner, stranger, third := accts[0], accts[1], accts[2]
+	key := NewSignKey("selfjoin-sid")
+	keys := key.PubKeys("signing")
+	r.BeginBlock()
+	ts0 := uint64(r.c.handlerNow())
+	root0 := *oracleCalcDoc(keys, ts0)
+	did := "did:sid:" + root0
+	first := &didtypes.MsgBinding{Creator: owner.Bech(), AccountId: accountIdOf(owner), RootDocId: root0, Keys: keys,
+		AccountAuth: &didtypes.AccountAuth{AccountDid: "did:key:acc-owner", AccountEncryptedSeed: "s", SidEncryptedAccount: "e"},
+		Proof:       &didtypes.BindingProof{Version: 1, Message: "bind " + did, Signature: CosmosProofSig(owner, owner.Bech(), "bind "+did), Account: accountIdOf(owner), Did: did, Timestamp: ts0}}
+	r.Binding(owner, first)
+	r.EndBlock()
+	more := func(creator, target *Account, accDid string) TxResult {
+		ts := uint64(r.c.handlerNow())
+		return r.Binding(creator, &didtypes.MsgBinding{Creator: creator.Bech(), AccountId: accountIdOf(target), RootDocId: root0, Keys: keys,
+			AccountAuth: &didtypes.AccountAuth{AccountDid: accDid, AccountEncryptedSeed: "s-" + accDid, SidEncryptedAccount: "e-" + accDid},
+			Proof:       &didtypes.BindingProof{Version: 1, Message: "bind " + did, Signature: CosmosProofSig(target, target.Bech(), "bind "+did), Account: accountIdOf(target), Did: did, Timestamp: ts}})
+	}
+	r.BeginBlock()
+	more(stranger, stranger, "did:key:acc-stranger") // self-join: refused
+	more(third, stranger, "did:key:acc-stranger")    // submitted by another unbound account: refused
+	r.EndBlock()
+	r.BeginBlock()
+	more(owner, stranger, "did:key:acc-stranger") // the owner adds the account: accepted
+	r.EndBlock()
+	r.BeginBlock()
+	more(stranger, third, "did:key:acc-third") // the new member adds a third
+	r.UpdatePaymentAddress(stranger, &didtypes.MsgUpdatePaymentAddress{Creator: stranger.Bech(), AccountId: accountIdOf(stranger), Did: did})
+	r.EndBlock()
 }
